@@ -110,11 +110,7 @@ func (d *decoder) decodeArray(v value, elemType reflect.Type, decodeElem decodeF
 	if n := d.readInt32(); n < 0 {
 		v.setArray(array{})
 	} else {
-		a := makeArray(elemType, int(n))
-		for i := 0; i < int(n) && d.remain > 0; i++ {
-			decodeElem(d, a.index(i))
-		}
-		v.setArray(a)
+		d.decodeArrayOf(v, elemType, decodeElem, uint64(n))
 	}
 }
 
@@ -122,12 +118,49 @@ func (d *decoder) decodeCompactArray(v value, elemType reflect.Type, decodeElem 
 	if n := d.readUnsignedVarInt(); n < 1 {
 		v.setArray(array{})
 	} else {
-		a := makeArray(elemType, int(n-1))
-		for i := 0; i < int(n-1) && d.remain > 0; i++ {
-			decodeElem(d, a.index(i))
-		}
-		v.setArray(a)
+		d.decodeArrayOf(v, elemType, decodeElem, n-1)
 	}
+}
+
+// maxArrayPrealloc is the number of elements allocated up front for an array
+// read from the wire; longer arrays grow as their elements are decoded, so
+// that the memory in use follows the data received and not the length prefix.
+const maxArrayPrealloc = 512
+
+func (d *decoder) decodeArrayOf(v value, elemType reflect.Type, decodeElem decodeFunc, count uint64) {
+	// Every element occupies at least one byte, a longer array cannot be
+	// contained in what remains of the message.
+	if count > uint64(d.remain) {
+		d.setError(fmt.Errorf("array of %d elements with %d bytes remaining in the message: %w", count, d.remain, io.ErrUnexpectedEOF))
+		v.setArray(array{})
+		return
+	}
+	n := int(count)
+	c := n
+	if c > maxArrayPrealloc {
+		c = maxArrayPrealloc
+	}
+	a := makeArray(elemType, c)
+	i := 0
+	for i < n && d.remain > 0 && d.err == nil {
+		if i == c {
+			if c *= 2; c > n {
+				c = n
+			}
+			a = growArray(elemType, a, c)
+		}
+		decodeElem(d, a.index(i))
+		i++
+	}
+	if i < n {
+		if d.err == nil {
+			d.setError(fmt.Errorf("array of %d elements truncated after %d: %w", n, i, io.ErrUnexpectedEOF))
+		}
+		if i < c {
+			a = growArray(elemType, a, i) // trims
+		}
+	}
+	v.setArray(a)
 }
 
 func (d *decoder) discardAll() {
@@ -148,12 +181,53 @@ func (d *decoder) discard(n int) {
 	d.setError(err)
 }
 
+// maxReadPrealloc is the number of bytes allocated up front for a byte
+// sequence read from the wire; longer ones are read in chunks.
+const maxReadPrealloc = 64 * 1024
+
 func (d *decoder) read(n int) []byte {
-	b := make([]byte, n)
-	n, err := io.ReadFull(d, b)
-	b = b[:n]
-	d.setError(err)
+	if n < 0 || n > d.remain {
+		// The length prefix announces more bytes than the message has left.
+		d.setError(fmt.Errorf("reading %d bytes with %d bytes remaining in the message: %w", n, d.remain, io.ErrUnexpectedEOF))
+		return []byte{}
+	}
+	if n <= maxReadPrealloc {
+		b := make([]byte, n)
+		n, err := io.ReadFull(d, b)
+		b = b[:n]
+		d.setError(err)
+		return b
+	}
+	// Do not trust the length before the bytes have arrived: grow the buffer
+	// as the data is received.
+	b := make([]byte, 0, maxReadPrealloc)
+	for len(b) < n {
+		c := len(b) // at most double the buffer each round
+		if c < maxReadPrealloc {
+			c = maxReadPrealloc
+		}
+		if c > n-len(b) {
+			c = n - len(b)
+		}
+		i := len(b)
+		b = append(b, make([]byte, c)...)
+		r, err := io.ReadFull(d, b[i:])
+		if err != nil {
+			b = b[:i+r]
+			d.setError(err)
+			break
+		}
+	}
 	return b
+}
+
+// skip discards n bytes of the message, n is a length read from the wire.
+func (d *decoder) skip(n uint64) {
+	if n > uint64(d.remain) {
+		d.setError(fmt.Errorf("skipping %d bytes with %d bytes remaining in the message: %w", n, d.remain, io.ErrUnexpectedEOF))
+		return
+	}
+	d.discard(int(n))
 }
 
 func (d *decoder) writeTo(w io.Writer, n int) {
@@ -427,17 +501,17 @@ func structDecodeFuncOf(typ reflect.Type, version int16, flexible bool) decodeFu
 		if flexible {
 			// See https://cwiki.apache.org/confluence/display/KAFKA/KIP-482%3A+The+Kafka+Protocol+should+Support+Optional+Tagged+Fields
 			// for details of tag buffers in "flexible" messages.
-			n := int(d.readUnsignedVarInt())
+			n := d.readUnsignedVarInt()
 
-			for i := 0; i < n; i++ {
-				tagID := int(d.readUnsignedVarInt())
-				size := int(d.readUnsignedVarInt())
+			for i := uint64(0); i < n && !d.done(); i++ {
+				tagID := d.readUnsignedVarInt()
+				size := d.readUnsignedVarInt()
 
-				f, ok := taggedFields[tagID]
+				f, ok := taggedFields[int(tagID)]
 				if ok {
 					f.decode(d, v.fieldByIndex(f.index))
 				} else {
-					d.read(size)
+					d.skip(size)
 				}
 			}
 		}
